@@ -180,11 +180,36 @@ def hVerify : Handler
     some (twice fun d => showBool (verifySig (mkH hlog d) (mkPk pklog d) s ⟨qbits, rbits, sbits⟩ t))
   | _ => none
 
+def pTarget (kind : String) (a b c : List Nat) : Option Target :=
+  match kind with
+  | "data" => some (Target.data a)
+  | "datalit" => some (Target.dataLit a (c.headD 0) b (Pgp.fromBE (c.drop 1)))
+  | "standalone" => some Target.standalone
+  | "key" => some (Target.key a)
+  | "key2" => some (Target.key2 a b)
+  | "uid" => some (Target.uid a b)
+  | "uat" => some (Target.uat a b)
+  | _ => none
+
+/-- pgpmsg.sigflip <kind> <a> <b> <c> <body> <pos> <flipped body> => <hashed 0|1> <same|changed|na> -/
+def hSigFlip : Handler
+  | [kind, a, b, c, body, pos, body2] => do
+    let a ← pHex a; let b ← pHex b; let c ← pHex c; let body ← pHex body; let pos ← pNat pos
+    let body2 ← pHex body2
+    let t ← pTarget kind a b c
+    let r := match sigFlipSameInput body body2 t with
+      | some true => "same"
+      | some false => "changed"
+      | none => "na"
+    some s!"{showBool (sigOctetHashed body pos)} {r}"
+  | _ => none
+
 def handlers : List (String × Handler) := [
   ("pgpmsg.cfb.enc", hCfbEnc), ("pgpmsg.cfb.dec", hCfbDec),
   ("pgpmsg.aead.enc", hAeadEnc), ("pgpmsg.aead.dec", hAeadDec),
   ("pgpmsg.msg.parse", hMsgParse), ("pgpmsg.msg.dec", hMsgDec),
-  ("pgpmsg.hash", hHash), ("pgpmsg.validity", hValidity), ("pgpmsg.verify", hVerify)
+  ("pgpmsg.hash", hHash), ("pgpmsg.validity", hValidity), ("pgpmsg.verify", hVerify),
+  ("pgpmsg.sigflip", hSigFlip)
 ]
 
 end Tmcg.DriverPgpMsg
